@@ -91,6 +91,47 @@ def dispToJson : Generated.Disp → Json
   | .otherExc c => Json.str s!"nonlib:{c}"
   | .other w => Json.str s!"other:{w}"
 
+def certInfoToJson (c : TPMCertInfo) : Json :=
+  Json.mkObj [("magic", bytesToJson c.magic), ("type", c.type), ("qualified_signer", bytesToJson c.qualifiedSigner),
+    ("extra_data", bytesToJson c.extraData), ("clock", bytesToJson c.clockInfo.clock),
+    ("reset_count", natToJson c.clockInfo.resetCount), ("restart_count", natToJson c.clockInfo.restartCount),
+    ("safe", c.clockInfo.safe), ("firmware_version", bytesToJson c.firmwareVersion),
+    ("name_alg", c.attested.nameAlg), ("name_alg_bytes", bytesToJson c.attested.nameAlgBytes),
+    ("name", bytesToJson c.attested.name), ("qualified_name", bytesToJson c.attested.qualifiedName)]
+
+def pubAreaToJson (p : TPMPubArea) : Json :=
+  Json.mkObj [("type", p.type), ("name_alg", p.nameAlg),
+    ("object_attributes", Json.arr (p.objectAttributes.map Json.bool).toArray),
+    ("auth_policy", bytesToJson p.authPolicy),
+    ("parameters", match p.parameters with
+      | .rsa sym sch kb ex => Json.mkObj [("kind", "rsa"), ("symmetric", sym), ("scheme", sch),
+          ("key_bits", bytesToJson kb), ("exponent", bytesToJson ex)]
+      | .ecc sym sch crv kdf => Json.mkObj [("kind", "ecc"), ("symmetric", sym), ("scheme", sch),
+          ("curve_id", crv), ("kdf", kdf)]),
+    ("unique", bytesToJson p.unique)]
+
+def regCredOfJson (j : Json) : P RegCred := do
+  pure { id := ← strField j "id", rawId := ← bytesField j "raw_id", type := ← strField j "type",
+         clientDataJSON := ← bytesField j "cdj", attestationObject := ← bytesField j "att_obj" }
+
+def regExpectOfJson (j : Json) : P RegExpect := do
+  let algs ← arrField j "algs"
+  let roots ← arrField j "roots"
+  pure { challenge := ← bytesField j "challenge", rpId := ← strField j "rp_id",
+         origin := ← originsOfJson (← field j "origin"), requireUP := ← boolField j "require_up",
+         requireUV := ← boolField j "require_uv", supportedAlgs := ← algs.toList.mapM intOfJson,
+         rootsByFmt := ← roots.toList.mapM (fun p => do
+           let a ← p.getArr?
+           if h : a.size = 2 then
+             pure ((← a[0].getStr?), (← (← a[1].getArr?).toList.mapM bytesOfJson))
+           else throw "bad roots pair") }
+
+def verifiedRegToJson (r : VerifiedReg) : Json :=
+  Json.mkObj [("credential_id", bytesToJson r.credentialId), ("credential_public_key", bytesToJson r.credentialPublicKey),
+    ("sign_count", natToJson r.signCount), ("aaguid", r.aaguid), ("fmt", r.fmt), ("credential_type", r.credentialType),
+    ("user_verified", r.userVerified), ("attestation_object", bytesToJson r.attestationObject),
+    ("credential_device_type", r.deviceType), ("credential_backed_up", r.backedUp)]
+
 partial def runOp (hin hout : IO.FS.Stream) (j : Json) : IO Json := do
   let op ← liftP (strField j "op")
   match op with
@@ -136,6 +177,28 @@ partial def runOp (hin hout : IO.FS.Stream) (j : Json) : IO Json := do
     let alg ← liftP (intField j "alg")
     let a : Cbor := if alg ≥ 0 then .uint alg.toNat else .nint (-1 - alg).toNat
     pure (Json.mkObj [("k", "accept"), ("record", dispToJson (sigDispatch kind a))])
+  | "parse_cert_info" => do
+    let b ← liftP (bytesField j "b")
+    pure (outcomeToJson certInfoToJson (parseCertInfo b))
+  | "parse_pub_area" => do
+    let b ← liftP (bytesField j "b")
+    pure (outcomeToJson pubAreaToJson (parsePubArea b))
+  | "validate_chain" => do
+    let x5c ← liftP (do (← arrField j "x5c").toList.mapM bytesOfJson)
+    let roots ← liftP (do (← arrField j "roots").toList.mapM bytesOfJson)
+    let r ← runMIO hin hout (validateChain x5c (roots.map Root.pem))
+    pure (outcomeToJson (fun _ => Json.bool true) r)
+  | "safetynet_timestamp" => do
+    let ts ← liftP (intField j "ts")
+    let r ← runMIO hin hout (do
+      let bad ← safetynetTimestampFails ts
+      reject bad (nonlibErr "ValueError" "snet.timestamp"))
+    pure (outcomeToJson (fun _ => Json.null) r)
+  | "verify_reg" => do
+    let c ← liftP (do regCredOfJson (← field j "cred"))
+    let e ← liftP (do regExpectOfJson (← field j "expect"))
+    let r ← runMIO hin hout (verifyReg c e)
+    pure (outcomeToJson verifiedRegToJson r)
   | "verify_auth" => do
     let c ← liftP (do authCredOfJson (← field j "cred"))
     let e ← liftP (do authExpectOfJson (← field j "expect"))
